@@ -849,6 +849,14 @@ func (w *Workspace) structuralC06() *FuncResult {
 							if _, isMap := x.X.Type().Underlying().(*types.Map); isMap {
 								mapRange = true
 							}
+						case *ssa.Store:
+							if gv := rootGlobal(x.Addr); gv != nil && gv.Pkg != nil && isRepoPkg(gv.Pkg.Pkg) {
+								bad = append(bad, "write to the package-level variable "+gv.Name()+" (memory of the node process)")
+							}
+						case *ssa.MapUpdate:
+							if gv := rootGlobal(x.Map); gv != nil && gv.Pkg != nil && isRepoPkg(gv.Pkg.Pkg) {
+								bad = append(bad, "write to the package-level map "+gv.Name()+" (memory of the node process)")
+							}
 						case ssa.CallInstruction:
 							if callee := x.Common().StaticCallee(); callee != nil {
 								if strings.HasSuffix(callee.String(), ".init") {
@@ -878,8 +886,64 @@ func (w *Workspace) structuralC06() *FuncResult {
 			}
 		}
 	}
+	// process-local memory: a keeper is handed to every handler by value; anything mutable it points to (a cache, a
+	// counter) lives in the node process, survives transactions and is not part of the replicated state
+	for _, mod := range mods {
+		sp := w.ssaPkgs[modPath+"/x/"+mod+"/keeper"]
+		if sp == nil {
+			continue
+		}
+		kt, ok := sp.Members["Keeper"].(*ssa.Type)
+		if !ok {
+			continue
+		}
+		st, ok := kt.Type().Underlying().(*types.Struct)
+		if !ok {
+			continue
+		}
+		var bad []string
+		for i := 0; i < st.NumFields(); i++ {
+			fld := st.Field(i)
+			if why := processLocal(fld.Type(), 0); why != "" {
+				bad = append(bad, fld.Name()+" ("+why+")")
+			}
+		}
+		res.Obls = append(res.Obls, structural("x/"+mod+"/keeper.Keeper", "keeper_holds_no_process_local_memory", []string{"C06"}, len(bad) == 0,
+			fmt.Sprintf("the keeper of x/%s carries mutable memory of the node process: %s; what handlers read from it can differ between nodes", mod, strings.Join(bad, ", "))))
+	}
 	res.Obls = append(res.Obls, structural("custom modules", "functions_scanned", []string{"C06"}, checked > 100, fmt.Sprintf("%d functions scanned", checked)))
 	return res
+}
+
+// processLocal: why a value of this type, held by a keeper, is mutable memory of the node process ("" if it is not).
+// Interfaces (store keys, codecs, other keepers) and types of other modules are the SDK's handles; strings and numbers
+// are immutable once the keeper is built.
+func processLocal(t types.Type, depth int) string {
+	if depth > 3 {
+		return ""
+	}
+	if n, ok := t.(*types.Named); ok {
+		if n.Obj().Pkg() != nil && !isRepoPkg(n.Obj().Pkg()) {
+			return ""
+		}
+	}
+	switch u := t.Underlying().(type) {
+	case *types.Pointer:
+		return "pointer to " + types.TypeString(u.Elem(), nil)
+	case *types.Map:
+		return "map"
+	case *types.Slice:
+		return "slice"
+	case *types.Chan:
+		return "channel"
+	case *types.Struct:
+		for i := 0; i < u.NumFields(); i++ {
+			if why := processLocal(u.Field(i).Type(), depth+1); why != "" {
+				return "field " + u.Field(i).Name() + ": " + why
+			}
+		}
+	}
+	return ""
 }
 
 // onlyFeedsTelemetry: the value of the call is used only as an argument of calls into the SDK telemetry package.
@@ -901,4 +965,186 @@ func onlyFeedsTelemetry(ci ssa.CallInstruction) bool {
 		}
 	}
 	return true
+}
+
+// rootGlobal: the package-level variable an address or a loaded reference is derived from (nil if none)
+func rootGlobal(v ssa.Value) *ssa.Global {
+	for i := 0; i < 8; i++ {
+		switch x := v.(type) {
+		case *ssa.Global:
+			return x
+		case *ssa.FieldAddr:
+			v = x.X
+		case *ssa.IndexAddr:
+			v = x.X
+		case *ssa.UnOp:
+			v = x.X
+		default:
+			return nil
+		}
+	}
+	return nil
+}
+
+// ---------------------------------------------------------------------------
+// C11, module-level frame: the tables that hold per-account resources are written only on behalf of the message
+// types that manage them. For each such table (store prefix) the functions that open the prefix and write are found
+// in the SSA of the keeper package; a message handler from which such a writer is reachable must be one of the
+// handlers whose C11 contract speaks about that resource. A new path from another message to the table fails.
+
+type c11Table struct {
+	Mod, Prefix, What string
+	Allowed           map[string]string // handler -> why it may write the table
+}
+
+var c11Tables = []c11Table{
+	{"rns", "PrimaryName/value/", "primary names", map[string]string{
+		"MakePrimary": "sets the signer's own primary name", "Register": "a first registration becomes the registrant's primary name",
+		"RegisterName": "a first registration becomes the registrant's primary name"}},
+	{"storage", "Providers/value/", "provider records", map[string]string{
+		"InitProvider": "creates the signer's record", "ShutdownProvider": "removes the signer's record", "AddProviderClaimer": "edits the signer's record",
+		"RemoveProviderClaimer": "edits the signer's record", "SetProviderIP": "edits the signer's record", "SetProviderKeybase": "edits the signer's record",
+		"SetProviderTotalSpace": "edits the signer's record", "Report": "a passed report burns the reported prover's contract counter (C14)"}},
+	{"oracle", "Feed/value/", "oracle feeds", map[string]string{"CreateFeed": "creates the signer's feed", "UpdateFeed": "updates the signer's feed"}},
+	{"notifications", "Notification/", "inboxes and block lists", map[string]string{
+		"CreateNotification": "adds to the recipient's inbox", "DeleteNotification": "deletes from the signer's inbox", "BlockSenders": "edits the signer's block list"}},
+}
+
+func (w *Workspace) structuralC11Frames() *FuncResult {
+	res := &FuncResult{Key: "custom modules: who may write the per-account tables"}
+	for _, tb := range c11Tables {
+		kp := w.ssaPkgs[modPath+"/x/"+tb.Mod+"/keeper"]
+		if kp == nil {
+			res.Obls = append(res.Obls, structural("x/"+tb.Mod+"/keeper", "package_loaded", []string{"C11"}, false, "package is not loaded"))
+			continue
+		}
+		var fns []*ssa.Function
+		seen := map[*ssa.Function]bool{}
+		var add func(fn *ssa.Function)
+		add = func(fn *ssa.Function) {
+			if fn == nil || seen[fn] || len(fn.Blocks) == 0 || strings.HasSuffix(w.prog.Fset.Position(fn.Pos()).Filename, "_test.go") {
+				return
+			}
+			seen[fn] = true
+			fns = append(fns, fn)
+			for _, a := range fn.AnonFuncs {
+				add(a)
+			}
+		}
+		for _, m := range kp.Members {
+			switch x := m.(type) {
+			case *ssa.Function:
+				add(x)
+			case *ssa.Type:
+				for _, t := range []types.Type{x.Type(), types.NewPointer(x.Type())} {
+					ms := w.prog.MethodSets.MethodSet(t)
+					for i := 0; i < ms.Len(); i++ {
+						if fn := w.prog.MethodValue(ms.At(i)); fn != nil && fn.Pkg == kp && fn.Synthetic == "" {
+							add(fn)
+						}
+					}
+				}
+			}
+		}
+		opens := map[*ssa.Function]bool{}
+		writes := map[*ssa.Function]bool{}
+		callees := map[*ssa.Function][]*ssa.Function{}
+		for _, fn := range fns {
+			for _, b := range fn.Blocks {
+				for _, ins := range b.Instrs {
+					ci, ok := ins.(ssa.CallInstruction)
+					if !ok {
+						continue
+					}
+					cc := ci.Common()
+					if cc.IsInvoke() {
+						if cc.Method.Name() == "Set" || cc.Method.Name() == "Delete" {
+							writes[fn] = true
+						}
+						continue
+					}
+					callee := cc.StaticCallee()
+					if callee == nil {
+						continue
+					}
+					if callee.Name() == "KeyPrefix" && len(cc.Args) == 1 {
+						if c, ok := cc.Args[0].(*ssa.Const); ok && constantString(c) == tb.Prefix {
+							opens[fn] = true
+						}
+					}
+					if s := callee.String(); s == "(github.com/cosmos/cosmos-sdk/store/prefix.Store).Set" || s == "(github.com/cosmos/cosmos-sdk/store/prefix.Store).Delete" {
+						writes[fn] = true
+					}
+					if seen[callee] {
+						callees[fn] = append(callees[fn], callee)
+					}
+					for _, a := range cc.Args {
+						if mc, ok := a.(*ssa.MakeClosure); ok {
+							if cf, ok := mc.Fn.(*ssa.Function); ok && seen[cf] {
+								callees[fn] = append(callees[fn], cf)
+							}
+						}
+					}
+				}
+			}
+			for _, a := range fn.AnonFuncs {
+				callees[fn] = append(callees[fn], a)
+			}
+		}
+		nWriters := 0
+		for _, fn := range fns {
+			if opens[fn] && writes[fn] {
+				nWriters++
+			}
+		}
+		res.Obls = append(res.Obls, structural("x/"+tb.Mod+"/keeper: table "+tb.Prefix, "writers_found", []string{"C11"}, nWriters > 0,
+			fmt.Sprintf("no function of x/%s/keeper opens the prefix %q and writes: the table of %s was moved or renamed, the frame rule has nothing to check", tb.Mod, tb.Prefix, tb.What)))
+		var handlers []*ssa.Function
+		for _, fn := range fns {
+			if fn.Signature.Recv() != nil && fn.Parent() == nil {
+				if n, ok := fn.Signature.Recv().Type().(*types.Named); ok && n.Obj().Name() == "msgServer" {
+					handlers = append(handlers, fn)
+				}
+			}
+		}
+		sort.Slice(handlers, func(i, j int) bool { return handlers[i].Name() < handlers[j].Name() })
+		for _, h := range handlers {
+			reach := map[*ssa.Function]bool{}
+			var visit func(fn *ssa.Function)
+			visit = func(fn *ssa.Function) {
+				if reach[fn] {
+					return
+				}
+				reach[fn] = true
+				for _, c := range callees[fn] {
+					visit(c)
+				}
+			}
+			visit(h)
+			via := ""
+			for fn := range reach {
+				if opens[fn] && writes[fn] {
+					if via == "" || relName(fn) < via {
+						via = relName(fn)
+					}
+				}
+			}
+			if via == "" {
+				continue
+			}
+			_, ok := tb.Allowed[h.Name()]
+			res.Obls = append(res.Obls, structural("x/"+tb.Mod+"/keeper.(msgServer)."+h.Name(), "writes_"+strings.ReplaceAll(tb.What, " ", "_")+"_only_as_one_of_their_own_messages", []string{"C11"}, ok,
+				fmt.Sprintf("the handler of %s reaches %s, which writes the table of %s (%s); only %s may, each under a C11 contract that confines the write to the signer's own resource", h.Name(), via, tb.What, tb.Prefix, strings.Join(sortedKeys(tb.Allowed), ", "))))
+		}
+	}
+	return res
+}
+
+func sortedKeys(m map[string]string) []string {
+	var ks []string
+	for k := range m {
+		ks = append(ks, k)
+	}
+	sort.Strings(ks)
+	return ks
 }
